@@ -76,7 +76,7 @@ func (r *Rns) MarshalText() (text []byte, err error) {
 	}
 	w.Write(b)
 	w.Write(NSEP)
-	putdomtext(w, r.Rns1.ns)
+	putservertext(w, r.Rns1.ns)
 	w.Write(NSEP)
 	fmt.Fprintf(w, "%d", r.Rns1.ttl)
 	w.Write(NSEP)
@@ -94,7 +94,7 @@ func (r *Rns1) MarshalText() (text []byte, err error) {
 	w.Write(NSEP)
 	// no ip address
 	w.Write(NSEP)
-	putdomtext(w, r.ns)
+	putservertext(w, r.ns)
 	w.Write(NSEP)
 	fmt.Fprintf(w, "%d", r.ttl)
 	w.Write(NSEP)
@@ -164,7 +164,7 @@ func (r *Rmx) MarshalText() (text []byte, err error) {
 	}
 	w.Write(b)
 	w.Write(NSEP)
-	putdomtext(w, r.mx)
+	putservertext(w, r.mx)
 	w.Write(NSEP)
 	fmt.Fprintf(w, "%d", r.dist)
 	w.Write(NSEP)
@@ -184,7 +184,7 @@ func (r *Rmx1) MarshalText() (text []byte, err error) {
 	w.Write(NSEP)
 	// skip ip
 	w.Write(NSEP)
-	putdomtext(w, r.mx)
+	putservertext(w, r.mx)
 	w.Write(NSEP)
 	fmt.Fprintf(w, "%d", r.dist)
 	w.Write(NSEP)
@@ -208,7 +208,7 @@ func (r *Rsrv) MarshalText() (text []byte, err error) {
 	}
 	w.Write(b)
 	w.Write(NSEP)
-	putdomtext(w, r.srv)
+	putservertext(w, r.srv)
 	w.Write(NSEP)
 	fmt.Fprintf(w, "%d", r.port)
 	w.Write(NSEP)
@@ -232,7 +232,7 @@ func (r *Rsrv1) MarshalText() (text []byte, err error) {
 	w.Write(NSEP)
 	// skip ip
 	w.Write(NSEP)
-	putdomtext(w, r.srv)
+	putservertext(w, r.srv)
 	w.Write(NSEP)
 	fmt.Fprintf(w, "%d", r.port)
 	w.Write(NSEP)
@@ -332,7 +332,7 @@ func (r *Rdot) MarshalText() (text []byte, err error) {
 	}
 	w.Write(b)
 	w.Write(NSEP)
-	putdomtext(w, r.Rns1.ns)
+	putservertext(w, r.Rns1.ns)
 	w.Write(NSEP)
 	fmt.Fprintf(w, "%d", r.Rns1.ttl)
 	w.Write(NSEP)
